@@ -209,9 +209,10 @@ W void w_hist_pad_fail(int32_t a, int32_t x, unsigned p, unsigned failAt, Hist* 
 }
 // ---- replacing a raw (serialized) value or a copied string releases its string node at once (C06/C14/C19)
 W void w_raw_release(const char* p, int32_t x, unsigned kind, Hist* h) {
-  arena.reset(); { JsonDocument doc(&arena);
-  bool ok = kind == 0 ? doc.set(serialized(p, 2)) : doc.set(JsonString(p, 2, JsonString::Copied)); h->ok_mask = ok;
-  h->calls_before = arena.n_free; doc.set(x); h->frees = arena.n_free; h->calls_after = arena.calls; h->size = doc.is<int32_t>(); h->e[0] = doc.as<int32_t>(); }
+  // (an ELEMENT is replaced: replacing the root clears the whole document, which releases strings wholesale)
+  arena.reset(); { JsonDocument doc(&arena); JsonVariant v = doc.add<JsonVariant>(); h->calls_before = arena.calls;   // calls so far: the slot pool
+  bool ok = kind == 0 ? v.set(serialized(p, 2)) : v.set(JsonString(p, 2, JsonString::Copied)); h->ok_mask = ok;
+  unsigned f0 = arena.n_free; v.set(x); h->frees = arena.n_free - f0; h->calls_after = arena.calls - h->calls_before; h->size = v.is<int32_t>(); h->e[0] = v.as<int32_t>(); h->calls_before = f0; }
   h->n = arena.n_free;
 }
 // ---- an add() refused AFTER its slot was allocated (the copied string cannot be allocated) gives the slot back (C05/C19/C06)
